@@ -50,8 +50,11 @@ import (
 	"fmt"
 	"go/token"
 	"go/types"
+	"os"
+	"regexp"
 	"runtime"
 	"slices"
+	"strings"
 
 	"golang.org/x/tools/go/ssa"
 )
@@ -543,7 +546,24 @@ func visitInstr(fr *frame, instr ssa.Instruction) continuation {
 		panic(engineError{"unreachable: phi"}) // phis are processed at block entry
 
 	case *ssa.Select:
-		panic(engineError{"select is not supported at " + i.where()})
+		// Channels can be created but never sent on or closed in this executor (both fail closed), so no
+		// communication of a select is ever ready: a select with a default clause takes it; a blocking one
+		// cannot be represented.
+		if instr.Blocking {
+			panic(engineError{"blocking select is not supported at " + i.where()})
+		}
+		for _, st := range instr.States {
+			if _, ok := fr.get(st.Chan).(*chanStub); !ok {
+				panic(engineError{"select on an unsupported channel value at " + i.where()})
+			}
+		}
+		r := tuple{-1, false}
+		for _, st := range instr.States {
+			if st.Dir == types.RecvOnly {
+				r = append(r, zero(st.Chan.Type().Underlying().(*types.Chan).Elem()))
+			}
+		}
+		fr.env[instr] = r
 
 	default:
 		panic(engineError{fmt.Sprintf("unexpected instruction: %T", instr)})
@@ -631,6 +651,22 @@ func callSSA(i *interpreter, caller *frame, callpos token.Pos, fn *ssa.Function,
 		panic(engineError{"no code for function: " + info.name + " (called at " + i.where() + ")"})
 	}
 	i.funcs[info.name]++
+	// regexp.MustCompile(pattern) is a pure function of a concrete pattern whose result is never mutated (Go >= 1.12
+	// keeps matcher state in package-level pools): the value interpreted once is shared by all paths. The real
+	// compiler code still runs - once per pattern and process instead of once per pattern and path.
+	if info.name == "regexp.MustCompile" {
+		if pat, ok := args[0].(string); ok {
+			if v, hit := i.shared.regexMemo.Load(pat); hit {
+				return v
+			}
+			defer func() {
+				if r := recover(); r != nil {
+					panic(r)
+				}
+				i.shared.regexMemo.Store(pat, fr.result)
+			}()
+		}
+	}
 
 	// generic function body?
 	if fn.TypeParams().Len() > 0 && len(fn.TypeArgs()) == 0 {
@@ -660,8 +696,20 @@ func callSSA(i *interpreter, caller *frame, callpos token.Pos, fn *ssa.Function,
 	for fr.block != nil {
 		runFrame(fr)
 	}
+	if traceFnRe != nil && traceFnRe.MatchString(info.name) {
+		fmt.Fprintf(os.Stderr, "TRACEFN %s%s -> %v\n", strings.Repeat(" ", i.depth%40), info.name, fr.result)
+	}
 	return fr.result
 }
+
+// traceFnRe (SYMX_TRACE_FN=regexp) prints the result of every matching interpreted function: a debugging aid
+// for locating a difference between the executor and the native build.
+var traceFnRe = func() *regexp.Regexp {
+	if s := os.Getenv("SYMX_TRACE_FN"); s != "" {
+		return regexp.MustCompile(s)
+	}
+	return nil
+}()
 
 // runFrame executes SSA instructions starting at fr.block and
 // continuing until a return, a panic, or a recovered panic.
